@@ -19,6 +19,7 @@ RULE = ("coolers with n=4 (quick) / 4 and 5 (thorough) bins in two chromosomes, 
         "where either bin is masked (dense: also where raw is 0); row weights from the row range, column weights from the column range; "
         "a missing column raises. Non-trivial: the window holds >=1 stored element and row range != column range or a NaN inside. "
         "Distinct by construction.")
+EXTRA_LEGS = 'all selectors (every balance / divisive / output combination) are taken from the one Cooler object before any of them is queried.'
 BOUNDS = {"quick": "n=4: all 16 NaN subsets x full matrix x both modes x 10 (balance, divisive) combinations x dense + (sparse | pixels alternating by subset parity) + joined pixels; 2 more matrices with 4 NaN subsets",
           "thorough": "n=4: all 16 NaN subsets x 3 matrices x both modes x the full 18 (balance, divisive) product x all 4 outputs; n=5: all 32 NaN subsets on the full matrix (8 subsets on 2 more matrices) x 10 combinations x all 4 outputs"}
 ASSUMPTIONS = ["weights are dyadic so products are exact up to 1e-12 relative", "pixels+join (13 ms per query) only on 12 windows per file"]
